@@ -235,7 +235,7 @@ PROPS = {
                 proofs=["zero_cache"],
                 steps=[{"cmd": "c16", "judge": "J_C16"}]),
     "C03": dict(P("valid files from the harness generator (all value types, integer widths 1-8, optional masks, multi-byte / non-minimal TLFs, list lengths across 15/16, both time encodings, "
-                  "1-byte checksum fields) with the generator's intended content, plus the corpus payloads and their message-boundary truncations, and valid files with one octet string of 2^12 .. 2^17 (thorough: 200000) bytes; judged against SmlGrammar.ParseFile"),
+                  "1-byte checksum fields) with the generator's intended content, plus the corpus payloads and their message-boundary truncations, and valid files with one octet string of 2^12 .. 2^17 (thorough: more lengths up to 2^17) bytes; judged against SmlGrammar.ParseFile"),
                 mc={"quick": ["grammar"], "thorough": ["grammar"]},
                 steps=[{"cmd": "c03", "judge": "J_C03", "cfg": "JudgeP.cfg", "tlcgen": "grammar_files"}]),
     "C04": dict(P("218 corpus payloads + generated files x (all truncations, extensions, single-byte substitutions - exhaustive at TLF bytes and for the smallest files -, element deletion / duplication / "
